@@ -3,19 +3,19 @@
 #   demo passes on the clean tree, fails with the patch, the pinned test suite still passes with the patch.
 # writes /tmp/mut/confirm/<ID>_<mK>.json ; removes the worktree afterwards.
 set -u
-ID=$1; M=$2; SRC=/tmp/mut/out/$ID/$M
-WT=/tmp/mut/confirm_wt_${ID}_${M}
+ID=$1; M=$2; BASE=${MUT_BASE:-/tmp/mut/out}; TAG=${MUT_TAG:-}; SRC=$BASE/$ID/$M
+WT=/tmp/mut/confirm_wt_${ID}_${TAG}${M}
 OUT=/tmp/mut/confirm; mkdir -p $OUT
 git -C /repo worktree remove --force $WT 2>/dev/null
 git -C /repo worktree add -q --detach $WT HEAD || exit 2
 cd $WT
 HOME=$WT/.home; mkdir -p $HOME; export HOME
-/venv/bin/python $SRC/demo.py > $OUT/${ID}_${M}.clean.log 2>&1; CLEAN=$?
-if git apply --3way $SRC/patch.diff 2>$OUT/${ID}_${M}.apply.log || git apply $SRC/patch.diff 2>>$OUT/${ID}_${M}.apply.log; then APPLY=0; else APPLY=1; fi
-/venv/bin/python $SRC/demo.py > $OUT/${ID}_${M}.mut.log 2>&1; MUT=$?
-git diff HEAD > $OUT/${ID}_${M}.patch.rebased.diff
-nice -n 15 /venv/bin/python -m pytest -q -p no:cacheprovider --timeout=900 -x --deselect test/test_persistent_dict.py::TestDBMDict > $OUT/${ID}_${M}.tests.log 2>&1; T=$?
-TAIL=$(tail -1 $OUT/${ID}_${M}.tests.log)
+/venv/bin/python $SRC/demo.py > $OUT/${ID}_${TAG}${M}.clean.log 2>&1; CLEAN=$?
+if git apply --3way $SRC/patch.diff 2>$OUT/${ID}_${TAG}${M}.apply.log || git apply $SRC/patch.diff 2>>$OUT/${ID}_${TAG}${M}.apply.log; then APPLY=0; else APPLY=1; fi
+/venv/bin/python $SRC/demo.py > $OUT/${ID}_${TAG}${M}.mut.log 2>&1; MUT=$?
+git diff HEAD > $OUT/${ID}_${TAG}${M}.patch.rebased.diff
+nice -n 15 /venv/bin/python -m pytest -q -p no:cacheprovider --timeout=900 -x --deselect test/test_persistent_dict.py::TestDBMDict > $OUT/${ID}_${TAG}${M}.tests.log 2>&1; T=$?
+TAIL=$(tail -1 $OUT/${ID}_${TAG}${M}.tests.log)
 cd /; git -C /repo worktree remove --force $WT
-printf '{"id":"%s","m":"%s","demo_clean_exit":%d,"patch_applies":%d,"demo_mutated_exit":%d,"tests_exit":%d,"tests_tail":"%s"}\n' "$ID" "$M" $CLEAN $APPLY $MUT $T "$TAIL" > $OUT/${ID}_${M}.json
-cat $OUT/${ID}_${M}.json
+printf '{"id":"%s","m":"%s","demo_clean_exit":%d,"patch_applies":%d,"demo_mutated_exit":%d,"tests_exit":%d,"tests_tail":"%s"}\n' "$ID" "$M" $CLEAN $APPLY $MUT $T "$TAIL" > $OUT/${ID}_${TAG}${M}.json
+cat $OUT/${ID}_${TAG}${M}.json
